@@ -31,8 +31,9 @@ def model_check(run, fam, goals_of, consts, tag, timeout=1500, workers=8):
     cfgname = "MC_%s.cfg" % tag
     kinds = "{" + ",".join('"%s"' % k for k in consts["Kinds"]) + "}"
     with open(os.path.join(tlc.SPEC, cfgname), "w") as f:
-        f.write("SPECIFICATION Spec\nCONSTANTS\n  MaxOps = %d\n  Kinds = %s\n  MaxStop = %d\n  MaxPanic = %d\n  MaxEvents = %d\n  NegGoals = FALSE\n"
-                % (consts["MaxOps"], kinds, consts.get("MaxStop", 0), consts.get("MaxPanic", 0), consts.get("MaxEvents", 400)))
+        f.write("SPECIFICATION Spec\nCONSTANTS\n  MaxOps = %d\n  Kinds = %s\n  MaxStop = %d\n  MaxPanic = %d\n  MaxEvents = %d\n  NegGoals = FALSE\n  PanicPlans = %s\n"
+                % (consts["MaxOps"], kinds, consts.get("MaxStop", 0), consts.get("MaxPanic", 0), consts.get("MaxEvents", 400),
+                   "TRUE" if consts.get("PanicPlans") else "FALSE"))
         f.write("INVARIANTS TypeOK %s Replay\nCHECK_DEADLOCK TRUE\n" % " ".join(consts["Invariants"]))
     try:
         r = tlc.tlc("SLGGroundMC", cfgname, env={"INPUTS": inp}, workers=workers, timeout=timeout, xmx="12g")
